@@ -352,6 +352,30 @@ class Tally:
         return dict(sorted(self.counts.items()))
 
 
+_POOL = None
+
+
+def _impl_chunk(args):
+    mask, rh, chunk = args
+    return [impl_construct(v, mask, s, rh=rh) for v, s in chunk]
+
+
+def par_impl(items, mask, rh=False, workers=14, chunk=5000):
+    """implementation outputs for many items, using a fork pool when the list is long"""
+    global _POOL
+    if len(items) < 40000:
+        return [impl_construct(v, mask, s, rh=rh) for v, s in items]
+    impl()
+    import multiprocessing as mp
+    if _POOL is None:
+        _POOL = mp.get_context("fork").Pool(workers)
+    parts = [(mask, rh, items[i:i + chunk]) for i in range(0, len(items), chunk)]
+    out = []
+    for r in _POOL.imap(_impl_chunk, parts):
+        out.extend(r)
+    return out
+
+
 def compare_construct(items, mask, tally=None, rh=False, nproc=8):
     """items: list of (ver, string).  Runs model and implementation, returns
     (n_compared, disagreements[(ver, s, model, impl)], impl_outputs)"""
@@ -360,8 +384,8 @@ def compare_construct(items, mask, tally=None, rh=False, nproc=8):
     model = run_driver(lines, nproc)
     dis = []
     outs = []
-    for (v, s), mo in zip(items, model):
-        io_ = impl_construct(v, mask, s, rh=rh)
+    impl_all = par_impl(items, mask, rh=rh)
+    for (v, s), mo, io_ in zip(items, model, impl_all):
         outs.append(io_)
         if tally is not None:
             tally.add("v%s:%s" % (v, io_.split("\t")[1] if io_.startswith("err") else io_.split("\t")[0]))
